@@ -289,3 +289,14 @@ func TestC19_Regress2(t *testing.T) {
 		}
 	}
 }
+
+func TestC09_Regress(t *testing.T) {
+	for _, src := range []string{"A=0 .0", "a = 1.5 .0\n", "a = [1 .2, -3 .4]\n"} {
+		out := hclwrite.Format([]byte(src))
+		in, _ := lexConfigToks([]byte(src))
+		got, _ := lexConfigToks(out)
+		if i := firstTokDiff(in, got); i >= 0 {
+			regressFail(t, "C09", "format-fuses-number-and-legacy-index", "Format(%q) = %q: token %d differs (%s vs %s)", src, out, i, tokAt(in, i), tokAt(got, i))
+		}
+	}
+}
